@@ -17,8 +17,7 @@ class Session:
         self.encoding, self.mode, self.pt = encoding, mode, paste_threshold
         self.pty = plumbing.Pty()
         self.inp = None
-        self._orig = ci.getpreferredencoding
-        ci.getpreferredencoding = lambda: encoding
+        self._pin = plumbing.PinnedEncoding(encoding)
         self.enter()
 
     def enter(self):
@@ -53,7 +52,7 @@ class Session:
         try:
             self.inp.__exit__(None, None, None)
         finally:
-            self.ci.getpreferredencoding = self._orig
+            self._pin.restore()
             self.pty.close()
 
 
